@@ -18,4 +18,5 @@ pub mod c07l1;
 pub mod c07shape;
 pub mod c07upd;
 pub mod c19;
+pub mod c19v;
 pub mod selftest;
